@@ -13,6 +13,7 @@ Helper lemmas: `NumqiProofs/Qec*.lean`.  Error-set theorems: `NumqiProps/C19Erro
 -/
 import NumqiProofs.QecKL
 import NumqiProofs.QecErrorList
+import NumqiProofs.QecParseval
 import NumqiModel.Generated.QecCircuits
 import Mathlib.Data.Complex.Basic
 
@@ -70,6 +71,34 @@ theorem stabilizer_KL {I : R} (hI : I * I = -1) (hs : star I = -I) (h2 : ∀ a b
   obtain ⟨e, he, rfl⟩ := hm
   rw [← ofSparse_eq_ofSyms c.n c.d e he]
   exact kl_of_klCheck hI hs h2 c h e he
+
+/-- **Parseval identity of the Pauli basis** `X^x Z^z`, `x,z < 2^n`:
+`Σ_{x,z} conj⟨u|P|v⟩ ⟨w|P|y⟩ = 2^n ⟨w|u⟩⟨v|y⟩`. -/
+theorem pauli_basis_parseval {I : R} (hI : I * I = -1) (h2 : ∀ a b : R, 2 * a = 2 * b → a = b) (n : Nat) (hn : n ≤ 32)
+    (u v w y : Nat → R) :
+    ∑ x ∈ Finset.range (2 ^ n), ∑ z ∈ Finset.range (2 ^ n),
+        star (ip n u (pauliAct I ⟨0, x, z⟩ v)) * ip n w (pauliAct I ⟨0, x, z⟩ y) = 2 ^ n * (ip n w u * ip n v y) :=
+  pauli_parseval hI h2 n hn u v w y
+
+/-- **Weight-enumerator sum rules** for the code words of any shape-correct code (`N = 2^h` is their squared norm;
+sums over the whole Pauli basis, identity included): `Σ_P |Σ_a ⟨c_a|P|c_a⟩|² = 2^n K N²`,
+`Σ_P Σ_ab |⟨c_a|P|c_b⟩|² = 2^n K² N²`, i.e. `Σ_j A_j = 2^n/K`, `Σ_j B_j = 2^n K` in the normalisation of
+`quantum_weight_enumerator` (which omits `A_0 = B_0 = 1`). -/
+theorem weight_enumerator_sum_rules {I : R} (hI : I * I = -1) (hs : star I = -I) (h2 : ∀ a b : R, 2 * a = 2 * b → a = b)
+    (c : Code) (hc : shapeCheck c = true) :
+    (∑ x ∈ Finset.range (2 ^ c.n), ∑ z ∈ Finset.range (2 ^ c.n),
+        star (∑ a ∈ Finset.range c.K, ip c.n (codeword I c a) (pauliAct I ⟨0, x, z⟩ (codeword I c a)))
+          * (∑ a ∈ Finset.range c.K, ip c.n (codeword I c a) (pauliAct I ⟨0, x, z⟩ (codeword I c a))))
+      = 2 ^ c.n * (c.K * (2 ^ countH c.encode * 2 ^ countH c.encode))
+    ∧ (∑ x ∈ Finset.range (2 ^ c.n), ∑ z ∈ Finset.range (2 ^ c.n), ∑ a ∈ Finset.range c.K, ∑ b ∈ Finset.range c.K,
+        star (ip c.n (codeword I c a) (pauliAct I ⟨0, x, z⟩ (codeword I c b)))
+          * ip c.n (codeword I c a) (pauliAct I ⟨0, x, z⟩ (codeword I c b)))
+      = 2 ^ c.n * (c.K * c.K * (2 ^ countH c.encode * 2 ^ countH c.encode)) := by
+  have hn : c.n ≤ 32 := by
+    simp only [shapeCheck, Bool.and_eq_true, decide_eq_true_eq] at hc
+    exact hc.1.2
+  exact enumerator_sum_rules hI h2 c.n hn c.K (2 ^ countH c.encode) (fun a => codeword I c a)
+    (fun a ha b hb => codeword_ortho hI hs h2 c hc a b ha hb)
 
 omit [StarRing R] in
 /-- **Listed stabilizers fix every code word**, sign `+1` included. -/
